@@ -111,7 +111,8 @@ class TTAReuse(Harness):
     functions = ["antismash.modules.tta.tta:TTAResults.to_json", "antismash.modules.tta.tta:TTAResults.from_json",
                  "antismash.modules.tta.tta:TTAResults.new_feature_from_basics"]
     bound = ("TTA results with 0-2 codon markers at symbolic positions; GC content of the record, the threshold the results were made with "
-             "and the threshold of the reusing run symbolic reals in [0, 1]; schema version symbolic")
+             "and the thresholds of the reusing run and of a further run reusing what that one saved symbolic reals in [0, 1]; schema "
+             "version symbolic")
     outside = "detection itself (string scanning of the sequence)"
     stubs = ["get_config().tta_threshold set through update_config"]
 
@@ -119,13 +120,13 @@ class TTAReuse(Harness):
         return [{"codons": k} for k in (0, 1, 2)]
 
     def vars(self, var):
-        d = {"gc": "real", "old": "real", "new": "real", "schema": "int"}
+        d = {"gc": "real", "old": "real", "new": "real", "third": "real", "schema": "int"}
         for i in range(var["codons"]):
             d["p%d" % i] = "int"
         return d
 
     def pre(self, var, v):
-        return L.And([L.And(0 <= v[k], v[k] <= 1) for k in ("gc", "old", "new")], 0 <= v["schema"], v["schema"] <= 3,
+        return L.And([L.And(0 <= v[k], v[k] <= 1) for k in ("gc", "old", "new", "third")], 0 <= v["schema"], v["schema"] <= 3,
                      [L.And(0 <= v["p%d" % i], v["p%d" % i] <= 1000) for i in range(var["codons"])])
 
     def run(self, var, v):
@@ -143,9 +144,15 @@ class TTAReuse(Harness):
         reloaded = tta.TTAResults.from_json(saved, rec)
         if reloaded is None:
             return {"reused": False, "detected": detected}
-        return {"reused": True, "detected": detected, "saved": saved, "again": reloaded.to_json(),
+        again = reloaded.to_json()
+        # a further cycle: what was just saved is offered to a run with yet another threshold
+        update_config({"tta_threshold": v["third"]})
+        third = tta.TTAResults.from_json(tree_copy(again), rec)
+        return {"reused": True, "detected": detected, "saved": saved, "again": again,
                 "features": [canon_loc(f.location) for f in reloaded.features],
-                "original_features": [canon_loc(f.location) for f in original.features]}
+                "original_features": [canon_loc(f.location) for f in original.features],
+                "third_reused": third is not None,
+                "third_features": [canon_loc(f.location) for f in third.features] if third is not None else None}
 
     def post(self, var, v, out):
         if is_raised(out):
@@ -163,6 +170,14 @@ class TTAReuse(Harness):
             cl.append(("no_codons_when_record_is_below_the_new_threshold", L.Implies(v["gc"] < v["new"], len(out["features"]) == 0)))
             cl.append(("not_reused_when_the_old_run_skipped_what_the_new_one_wants",
                        L.Not(L.And(v["gc"] < v["old"], v["gc"] >= v["new"]))))
+            # the same two demands on the next cycle, whose input is the JSON saved by this one
+            if out["third_reused"]:
+                cl.append(("next_cycle_no_codons_when_record_is_below_its_threshold",
+                           L.Implies(v["gc"] < v["third"], len(out["third_features"]) == 0)))
+                cl.append(("next_cycle_not_reused_when_codons_were_skipped_that_it_wants",
+                           L.Not(L.And(v["gc"] >= v["third"], L.Or(v["gc"] < v["old"], v["gc"] < v["new"])))))
+                cl.append(("next_cycle_same_features_when_it_wants_them",
+                           L.Implies(v["gc"] >= v["third"], tree_equal(out["third_features"], out["original_features"]))))
         return cl
 
 
@@ -374,16 +389,17 @@ class NrpsPksReuse(Harness):
             "split": [["PKS_KS", "PKS_AT"], ["ACP", "PKS_KR"]],
             "nrps": [["Condensation_LCL", "AMP-binding", "PCP", "Thioesterase"]],
             "lone": [["PKS_KR"], ["PCP"]],
-            "loaders": [["PKS_AT", "ACP", "PKS_AT", "ACP"]]}      # a loader-only module is complete only as the first of its gene
+            "loaders": [["PKS_AT", "ACP", "PKS_AT", "ACP"]],
+            "motifs": [[], ["PKS_KS", "PKS_AT", "ACP"]]}         # a gene with motif hits but no domain hits      # a loader-only module is complete only as the first of its gene
 
     def variants(self, tier):
         out = []
-        for arch in ("pks", "split", "nrps", "lone", "loaders"):
+        for arch in ("pks", "split", "nrps", "lone", "loaders", "motifs"):
             for strands in ((1, 1), (-1, -1), (1, -1)):
                 if len(self.ARCH[arch]) == 1 and strands[0] != strands[1]:
                     continue
                 for shape in (("s",) if tier == "quick" else ("s", "j2")):
-                    if tier == "quick" and arch in ("nrps", "lone", "loaders") and strands[0] == -1:
+                    if tier == "quick" and arch in ("nrps", "lone", "loaders", "motifs") and strands != (1, 1):
                         continue
                     out.append({"arch": arch, "strands": list(strands), "shape": shape})
         return out
@@ -490,7 +506,7 @@ class NrpsPksReuse(Harness):
 
     def expected_classes(self, var):
         # vacuity: results are discarded on some paths and reused on others, with the module count the architecture implies
-        return {"reused:no", "reused:%d" % {"pks": 1, "split": 1, "nrps": 1, "lone": 0, "loaders": 2}[var["arch"]]}
+        return {"reused:no", "reused:%d" % {"pks": 1, "split": 1, "nrps": 1, "lone": 0, "loaders": 2, "motifs": 1}[var["arch"]]}
 
 
 HARNESSES = [RuleResults(), TTAReuse(), HmmerReuse(), ModuleReload(), SideloadReuse(), NrpsPksReuse()]
